@@ -4,6 +4,7 @@ import (
 	"fmt"
 	"go/token"
 	"go/types"
+	"sort"
 	"strings"
 
 	"golang.org/x/tools/go/ssa"
@@ -658,6 +659,193 @@ func runC02(p *core.Prog, r *core.Report, tier string) {
 		}
 	}
 	r.Floor("C02.g functions with lock operations", nLock, 6)
+
+	checkControllerJobs(p, r, ds)
+}
+
+// checkControllerJobs: C02.m/C02.n — on the user's side of the scheduler (the controller):
+//
+//	(m) the work of a duty (Propose, Attest, Message, Aggregate of the duty services) is reached from the body of ONE
+//	    scheduled job per kind: a second way to it (a direct call beside the job, a fall-back when the job could not be
+//	    kicked off) runs the work although the job ran, or although it was cancelled;
+//	(n) the context handed to the scheduler with a job is not one that the scheduling function narrows (WithTimeout /
+//	    WithDeadline / WithCancel): the scheduler drops an accepted job when its context ends.
+func checkControllerJobs(p *core.Prog, r *core.Report, ds *core.Describer) {
+	const ctrl = "services/controller/standard"
+	fns := p.FuncsIn(ctrl)
+	if len(fns) == 0 {
+		r.Undecide("C02.m", ctrl, "", "package not found")
+		return
+	}
+	isSchedule := func(c *ssa.CallCommon) bool {
+		n := core.MethodName(c)
+		return c.IsInvoke() && (n == "ScheduleJob" || n == "SchedulePeriodicJob")
+	}
+	// job bodies: function values handed to the scheduler
+	jobBody := map[*ssa.Function]ssa.CallInstruction{}
+	for _, f := range fns {
+		for _, ci := range core.Calls(f, isSchedule) {
+			for _, a := range ci.Common().Args {
+				for {
+					if ct, ok := a.(*ssa.ChangeType); ok {
+						a = ct.X
+						continue
+					}
+					break
+				}
+				switch x := a.(type) {
+				case *ssa.MakeClosure:
+					if fn, ok := x.Fn.(*ssa.Function); ok {
+						jobBody[fn] = ci
+					}
+				case *ssa.Function:
+					jobBody[x] = ci
+				}
+			}
+		}
+	}
+	// who reaches whom inside the package (static calls, go/defer, closures created in a function)
+	succ := map[*ssa.Function][]*ssa.Function{}
+	for _, f := range fns {
+		core.EachInstr(f, func(in ssa.Instruction) {
+			switch x := in.(type) {
+			case ssa.CallInstruction:
+				if callee := x.Common().StaticCallee(); callee != nil && callee.Pkg == f.Pkg {
+					succ[f] = append(succ[f], callee)
+				}
+			}
+			if mc, ok := in.(*ssa.MakeClosure); ok {
+				if fn, ok := mc.Fn.(*ssa.Function); ok {
+					if _, isJob := jobBody[fn]; !isJob {
+						succ[f] = append(succ[f], fn) // runs as part of f (called on the spot, or started as a goroutine)
+					}
+				}
+			}
+		})
+	}
+	entry := map[string]bool{"Propose": true, "Attest": true, "Message": true, "Aggregate": true}
+	reach := func(root *ssa.Function) map[string]ssa.CallInstruction {
+		out := map[string]ssa.CallInstruction{}
+		seen := map[*ssa.Function]bool{}
+		var walk func(f *ssa.Function)
+		walk = func(f *ssa.Function) {
+			if seen[f] {
+				return
+			}
+			seen[f] = true
+			for _, ci := range core.Calls(f, func(c *ssa.CallCommon) bool { return c.IsInvoke() && entry[core.MethodName(c)] }) {
+				out[core.CalleeName(ci.Common())] = ci
+			}
+			for _, g := range succ[f] {
+				walk(g)
+			}
+		}
+		walk(root)
+		return out
+	}
+	from := map[string][]string{}
+	at := map[string]ssa.CallInstruction{}
+	var bodies []*ssa.Function
+	for b := range jobBody {
+		bodies = append(bodies, b)
+	}
+	sort.Slice(bodies, func(i, j int) bool { return bodies[i].Pos() < bodies[j].Pos() })
+	for _, b := range bodies {
+		for name, ci := range reach(b) {
+			from[name] = append(from[name], p.Pos(jobBody[b].Pos()))
+			at[name] = ci
+		}
+	}
+	var names []string
+	for n := range from {
+		names = append(names, n)
+	}
+	sort.Strings(names)
+	for _, n := range names {
+		r.Check(len(from[n]) == 1, "C02.m", "controller|one-job-per-duty-work|"+n, p.Pos(at[n].Pos()), "the work is reached from the body of one scheduled job", fmt.Sprintf("%s is reached from the bodies of %d scheduled jobs (%s): when both run — the job itself and the one that was meant to kick it off — the duty is carried out twice, and a cancelled job's work is still done", n, len(from[n]), strings.Join(from[n], ", ")))
+	}
+	r.Floor("C02.m kinds of duty work started from scheduled jobs", len(names), 4)
+	// … and from nowhere else: every call of such work lies in code that a job body reaches
+	inJob := map[*ssa.Function]bool{}
+	var mark func(f *ssa.Function)
+	mark = func(f *ssa.Function) {
+		if inJob[f] {
+			return
+		}
+		inJob[f] = true
+		for _, g := range succ[f] {
+			mark(g)
+		}
+	}
+	for _, b := range bodies {
+		mark(b)
+	}
+	for _, f := range fns {
+		if inJob[f] {
+			continue
+		}
+		for k, ci := range core.Calls(f, func(c *ssa.CallCommon) bool { return c.IsInvoke() && entry[core.MethodName(c)] }) {
+			r.Violate("C02.m", fmt.Sprintf("controller|work-outside-a-job|%s|%s#%d", core.FnKey(f), core.CalleeName(ci.Common()), k+1), p.Pos(ci.Pos()), core.CalleeName(ci.Common())+" is called from "+f.Name()+", which is not part of the body of a scheduled job: the work is done beside the job that exists for it (twice, or although the job was cancelled)")
+		}
+	}
+
+	// (n)
+	nCtx := 0
+	for _, f := range fns {
+		for _, ci := range core.Calls(f, isSchedule) {
+			if len(ci.Common().Args) == 0 {
+				continue
+			}
+			nCtx++
+			d := ds.D(ci.Common().Args[0])
+			narrowed := d.MentionsCall("context.WithTimeout") || d.MentionsCall("context.WithDeadline") || d.MentionsCall("context.WithCancel")
+			r.Check(!narrowed, "C02.n", fmt.Sprintf("%s|job-context#%d", core.FnKey(f), nCtx), p.Pos(ci.Pos()), "the job is scheduled under a context its scheduling function does not end", "the job is handed to the scheduler under "+d.String()+", which ends when the scheduling function returns or its time is up: the accepted job is then dropped without having run")
+		}
+	}
+	// the same for the functions of the controller that schedule with a context they were handed: their callers
+	schedules := map[*ssa.Function]bool{}
+	for changed := true; changed; {
+		changed = false
+		for _, f := range fns {
+			if schedules[f] {
+				continue
+			}
+			hit := len(core.Calls(f, isSchedule)) > 0
+			for _, g := range succ[f] {
+				if schedules[g] {
+					hit = true
+				}
+			}
+			if hit {
+				schedules[f] = true
+				changed = true
+			}
+		}
+	}
+	for _, f := range fns {
+		k := 0
+		core.EachInstr(f, func(in ssa.Instruction) {
+			ci, ok := in.(ssa.CallInstruction)
+			if !ok {
+				return
+			}
+			callee := ci.Common().StaticCallee()
+			if callee == nil || !schedules[callee] {
+				return
+			}
+			for _, a := range ci.Common().Args {
+				if !strings.HasSuffix(a.Type().String(), "context.Context") {
+					continue
+				}
+				d := ds.D(a)
+				if d.MentionsCall("context.WithTimeout") || d.MentionsCall("context.WithDeadline") || d.MentionsCall("context.WithCancel") {
+					k++
+					r.Violate("C02.n", fmt.Sprintf("%s|narrowed-context-to-scheduling-function#%d", core.FnKey(f), k), p.Pos(ci.Pos()), "the context handed to "+callee.Name()+", which schedules jobs under it, is "+d.String()+": it ends when this function returns or its time is up, and the scheduler then drops the jobs it has just accepted")
+				}
+			}
+		})
+	}
+	r.Floor("C02.n ScheduleJob calls in the controller", nCtx, 6)
 }
 
 func firstInstr(b *ssa.BasicBlock) ssa.Instruction {
